@@ -189,8 +189,12 @@ func (e Envelope) Center() Point {
 	if e.IsEmpty() {
 		return Point{}
 	}
-	return e.min.
-		Add(e.max).
+	sum := e.min.Add(e.max)
+	if math.IsInf(sum.X, 0) || math.IsInf(sum.Y, 0) {
+		// The sum overflowed; halve before adding instead.
+		return e.min.Scale(0.5).Add(e.max.Scale(0.5)).AsPoint()
+	}
+	return sum.
 		Scale(0.5).
 		AsPoint()
 }
